@@ -261,6 +261,7 @@ func RunC08(c *Ctx) {
 	// into an earlier document)
 	var skipLong rjson.Buffer
 	var keyLong []byte
+	var directLong rjson.ValueReader
 	overDeep := workload.BuildNest([]int{0, 2}, 10001, "0", 10001)
 	c.RunDocs([]string{"W3", "W1", "W4", "W2small", "W2T", "W1R"}, func(cs *h.Case) {
 		if cs.Deep {
@@ -281,6 +282,38 @@ func RunC08(c *Ctx) {
 			return
 		}
 		c.Rec.Evals(1)
+		// "direct decoding" is also what a long-lived ValueReader does, through whichever of its three entry
+		// points fits the document, in either order: all of them must agree with the package-level function,
+		// or the composition decoders would match one and contradict another (seeded change C08r10-m2: a
+		// pooled child reader keeps the depth it was created with, and the root's depth differs between
+		// ReadValue and ReadArray / ReadObject - one level gained or lost at the nesting limit)
+		if len(d) > 0 {
+			fp := refmodel.SkipWS(d, 0)
+			typed := 0
+			if fp < len(d) && d[fp] == '[' {
+				typed = 2
+			} else if fp < len(d) && d[fp] == '{' {
+				typed = 1
+			}
+			order := []int{0, typed}
+			if c.Rec.R.Cases%2 == 1 {
+				order = []int{typed, 0}
+			}
+			for _, fn := range order {
+				var v interface{}
+				var p int
+				var err error
+				if c.Guarded(cs, "ValueReader(long-lived)."+vrFnNames[fn], func() { v, p, err = vrCall(&directLong, fn, d) }) {
+					return
+				}
+				c.Rec.Evals(1)
+				c.Rec.C("direct_decodings_through_a_long_lived_reader")
+				if (err == nil) != (werr == nil) || err == nil && (p != wp || !refmodel.EqTree(v, want)) {
+					c.Rec.AddViolation(h.Violation{Property: c.Prop, Oracle: "direct decoding through a long-lived ValueReader disagrees with the package-level ReadValue", Entry: "ValueReader." + vrFnNames[fn], Family: cs.Family, Desc: cs.Describe(), InputB64: b64(d), InputQ: h.Quote(d),
+						Expected: fmt.Sprintf("p=%d err=%s", wp, errStr(werr)), Observed: fmt.Sprintf("p=%d err=%s", p, errStr(err)), Seed: c.Seed, Tier: c.Tier})
+				}
+			}
+		}
 		nprog := 4
 		if c.Thorough() {
 			nprog = 10
